@@ -227,7 +227,7 @@ pub fn run_check(id: &str, tier: &str) -> i32 {
     let max_runs: u64 = std::env::var("VERIF_MAX_RUNS")
         .ok()
         .and_then(|s| s.parse().ok())
-        .unwrap_or(if budget_env.is_some() { u64::MAX } else if thorough { q_runs * 6 } else { q_runs });
+        .unwrap_or(if budget_env.is_some() { u64::MAX } else if thorough { q_runs * 3 } else { q_runs });
     println!("osim: property={} tier={} VERIF_SEED={} runs={} cap={}s workers={}", id, tier, base_seed, if max_runs == u64::MAX { "unbounded".to_string() } else { max_runs.to_string() }, budget_s, workers);
     let deadline = t0 + Duration::from_secs(budget_s);
     let next = AtomicU64::new(0);
